@@ -322,6 +322,10 @@ type jarEntry struct {
 
 func clientJar(s *simrt.Sim, info *harness.RunInfo) {
 	hosts := []string{"a.example", "b.example", "a.example:8080"}[:s.Range(2, 3)]
+	if s.Chance(300) {
+		// IPv6 literals: two hosts that differ only after the last colon, one of them also with a port
+		hosts = []string{"[fd00::1]", "[fd00::2]", "[fd00::1]:8080"}[:s.Range(2, 3)]
+	}
 	paths := []string{"/", "/a", "/a/b", "/c"}
 	reqPaths := []string{"/", "/a", "/a/b", "/a/b/x", "/c", "/d"}
 	names := []string{"n0", "n1", "n2"}
@@ -355,6 +359,9 @@ func clientJar(s *simrt.Sim, info *harness.RunInfo) {
 
 	model := map[string][]*jarEntry{}
 	hostKey := func(h string) string {
+		if strings.HasPrefix(h, "[") {
+			return h[:strings.IndexByte(h, ']')+1] // cookies are not scoped by port
+		}
 		if i := strings.IndexByte(h, ':'); i >= 0 {
 			return h[:i]
 		}
